@@ -13,7 +13,7 @@ func init() {
 		Fn: checkC03, Level: "model_checking",
 		Rule: "shadow supply ledger evaluated on every transition of (a) all <=k-deviation histories around the 7 shared skeletons (full message alphabet) and (b) an exhaustive DFS (depth 4 quick / 6 thorough, state-hash dedup) over {MintInit gov/user, Tip 1/49/50/1000001, WithdrawTokens 1/1e6, ClaimDeposits, Send, Delegate, Submit, Block 400us/1ms/2ms/1s/1d/9d} from a state with a claimable deposit; oracle: per-transition supply delta equals the documented amount (mint=floor(rate*ms/day) split floor(1/4) | rest, tip burn floor(2%), deposit amount/1e12, withdrawal amount, dispute burns <= BurnAmount), rejected tx => 0, sum of balances == supply, cumulative mint <= rate*elapsed",
 		Assume:      []string{"distribution/gov/IBC modules do not mint or burn in the explored histories (they are executed for real; any such change would be reported)"},
-		QuickBudget: 5 * time.Minute, ThoroughBudget: 15 * time.Minute,
+		QuickBudget: 10 * time.Minute, ThoroughBudget: 15 * time.Minute,
 	})
 }
 
